@@ -241,6 +241,11 @@ def normal_exit(run, fs, res, rep):
                        function=key)
     if selfv is not None and fs.exit_inv and not fs.pure:
         for sub in nested_objects(selfv):
+            if sub.spec().opaque_inv:
+                # a sub-object only changes through its own contracts, which hand back the opaque invariant
+                run.oblige(f"{key}/inv/{sub.cls}.INV", spec.INV(sub.cls, sub.t), kind='inv',
+                           clause=f'inv:{sub.cls}.INV', function=key)
+                continue
             for cname, f in sub.spec().all_invariants().items():
                 run.oblige(f"{key}/inv/{sub.cls}.{cname}", run.clause(cname, f, ObjView(sub)), kind='inv',
                            clause=f'inv:{sub.cls}.{cname}', function=key)
